@@ -74,7 +74,7 @@ func readMetaFork(input []byte, maxList uint32, n int) (out []metaObs) {
 	for i := 0; i < n; i++ {
 		o := projMetaFork(fr.ReadFrame())
 		out = append(out, o)
-		if o.Err != "" {
+		if o.Err != "" && !strings.HasPrefix(o.Err, "stream:") { // a stream error leaves the connection in use
 			break
 		}
 	}
@@ -93,7 +93,7 @@ func readMetaRef(input []byte, maxList uint32, n int) (out []metaObs) {
 	for i := 0; i < n; i++ {
 		o := projMetaRef(fr.ReadFrame())
 		out = append(out, o)
-		if o.Err != "" {
+		if o.Err != "" && !strings.HasPrefix(o.Err, "stream:") {
 			break
 		}
 	}
@@ -139,13 +139,19 @@ func hfSize(f [2]string) int { return len(f[0]) + len(f[1]) + 32 }
 // at arbitrary bytes.
 func encodeSplit(rng *hk.Rand, fs [][2]string) (frags [][]byte, perFrag [][][2]string, atBoundary bool) {
 	var buf bytes.Buffer
-	enc := hpack.NewEncoder(&buf)
+	return encodeSplitWith(rng, fs, hpack.NewEncoder(&buf), &buf)
+}
+
+// encodeSplitWith: enc writes into buf and may be shared by several blocks of one connection
+// (dynamic table carried from block to block, as a real peer does).
+func encodeSplitWith(rng *hk.Rand, fs [][2]string, enc *hpack.Encoder, buf *bytes.Buffer) (frags [][]byte, perFrag [][][2]string, atBoundary bool) {
+	buf.Reset()
 	var ends []int
 	for _, f := range fs {
 		enc.WriteField(hpack.HeaderField{Name: f[0], Value: f[1], Sensitive: rng.Chance(10)})
 		ends = append(ends, buf.Len())
 	}
-	block := buf.Bytes()
+	block := append([]byte(nil), buf.Bytes()...)
 	k := hk.Pick(rng, []int{1, 1, 2, 2, 3, 4})
 	atBoundary = rng.Chance(70)
 	cuts := []int{}
@@ -306,6 +312,115 @@ func runH2Meta(r *hk.Run, rng *hk.Rand) {
 			c.Coq = fmt.Sprintf("H2Meta %d %d %s %s", eff, sid, hk.CoqList(xs), first.coq())
 		}
 		r.Add(c, fmt.Sprint("h2m|", maxList, "|", wire), len(fs) > 1)
+	}
+}
+
+// runH2MetaSeq: SEQUENCES of 2..5 header blocks (one stream each, one HPACK encoder for all of them)
+// through ONE Framer + hpack decoder on each side, with PING / WINDOW_UPDATE frames in between: what
+// a rejected (stream error) or truncated block leaves behind in the framer and its decoder must not
+// leak into the blocks that follow.  Every position of the bad block in the sequence is generated.
+func runH2MetaSeq(r *hk.Run, rng *hk.Rand) {
+	n := r.Scale(2500, 100000)
+	modelEvery := n / r.Scale(900, 9000)
+	for i := 0; i < n; i++ {
+		k := rng.Range(2, 5)
+		var ebuf bytes.Buffer
+		enc := hpack.NewEncoder(&ebuf)
+		var wire []byte
+		var blocks [][][2]string
+		var coqBlocks []string
+		modelOK := true
+		maxList := hk.Pick(rng, []uint32{0, 1 << 16, 1 << 16, 400, 200, 120, 90})
+		effMax := uint64(maxList)
+		if effMax == 0 {
+			effMax = 16 << 20
+		}
+		frames := 0
+		for b := 0; b < k; b++ {
+			fs := genH2Fields(rng)
+			if rng.Chance(45) { // a clean response: the victim of whatever came before
+				fs = [][2]string{{":status", "200"}, {"server", hk.Pick(rng, h2Vals[:6])}, {hk.Pick(rng, h2Names), "v" + fmt.Sprint(b)}}
+			}
+			blocks = append(blocks, fs)
+			frags, perFrag, atB := encodeSplitWith(rng, fs, enc, &ebuf)
+			sid := uint32(2*b + 1)
+			for j, fr := range frags {
+				var flags uint8
+				if j == len(frags)-1 {
+					flags |= 0x4
+				}
+				ty := uint8(9)
+				if j == 0 {
+					ty = 1
+				}
+				wire = append(wire, rawFrame(uint32(len(fr)), ty, flags, sid, fr)...)
+				frames++
+			}
+			if rng.Chance(40) {
+				wire = append(wire, rawFrame(8, 6, 0, 0, []byte("abcdefgh"))...)
+				frames++
+			}
+			if !atB {
+				modelOK = false
+			}
+			for _, f := range fs {
+				if uint64(len(f[0])) > effMax || uint64(len(f[1])) > effMax {
+					modelOK = false
+				}
+			}
+			var xs []string
+			for j := range frags {
+				xs = append(xs, hk.CoqPair(fmt.Sprint(len(frags[j])), coqStrPairs(perFrag[j])))
+			}
+			coqBlocks = append(coqBlocks, hk.CoqPair(fmt.Sprint(sid), hk.CoqList(xs)))
+		}
+		fo, ro := readMetaFork(wire, maxList, frames+1), readMetaRef(wire, maxList, frames+1)
+		desc := map[string]interface{}{"kind": "h2-meta-seq", "max_header_list_size": maxList, "blocks": fmt.Sprintf("%q", blocks), "wire": fmt.Sprintf("%x", capBytes(wire, 600))}
+		r.Count(fmt.Sprintf("h2.metaseq.blocks%d", k))
+		same := len(fo) == len(ro)
+		for j := 0; same && j < len(fo); j++ {
+			same = fo[j].key() == ro[j].key()
+		}
+		if !same {
+			r.Fail(hk.Failure{Sig: "h2:meta-seq", What: "a sequence of header blocks read through one Framer differs from golang.org/x/net/http2 (merged header lists, Truncated or error class of some block)", Input: desc, Got: fmt.Sprintf("%+v", fo), Want: fmt.Sprintf("%+v", ro)})
+		}
+		// the oracle proper, independent of the reference: a block that follows a rejected or truncated
+		// one is read as if it came first (fresh Framer fed the same bytes cannot be used - HPACK state -
+		// so: a block accepted untruncated must carry exactly its own fields)
+		bi, sawBad := 0, false
+		var metas []metaObs
+		for _, o := range fo {
+			if o.Kind != "meta" && !strings.HasPrefix(o.Err, "stream:") && !strings.HasPrefix(o.Err, "conn:") {
+				continue
+			}
+			metas = append(metas, o)
+			if bi < len(blocks) && o.Err == "" && !o.Truncated {
+				if fmt.Sprint(o.Fields) != fmt.Sprint(blocks[bi]) {
+					sig := "h2:meta-seq:block-lost-fields"
+					if sawBad {
+						sig = "h2:meta-seq:block-after-rejected-lost-fields"
+					}
+					r.Fail(hk.Failure{Sig: sig, What: "a header block delivered untruncated does not carry the fields that were sent in it", Input: desc, Got: fmt.Sprintf("block %d: %q", bi, o.Fields), Want: fmt.Sprintf("%q", blocks[bi])})
+				}
+				if sawBad {
+					r.Count("h2.metaseq.good-after-bad")
+				}
+			}
+			if o.Err != "" || o.Truncated {
+				sawBad = true
+			}
+			bi++
+		}
+		c := hk.Case{Desc: desc}
+		complete := len(fo) > 0 && (fo[len(fo)-1].Err == "eof" || strings.HasPrefix(fo[len(fo)-1].Err, "conn:"))
+		if i%modelEvery == 0 && modelOK && complete {
+			var obs []string
+			for _, o := range metas {
+				obs = append(obs, o.coq())
+			}
+			c.Coq = fmt.Sprintf("H2MetaSeq %d %s %s", effMax, hk.CoqList(coqBlocks), hk.CoqList(obs))
+		}
+		r.Add(c, fmt.Sprint("h2ms|", maxList, "|", wire), true)
 	}
 }
 
